@@ -158,6 +158,26 @@ func (r *Report) Seal() {
 	}
 }
 
+// newViolations counts violated obligations that the known-findings file does not list.
+func (r *Report) newViolations() int {
+	n := 0
+	for _, o := range r.Obs {
+		if o.Status != "violated" {
+			continue
+		}
+		listed := false
+		for _, k := range r.known {
+			if k.Status == "known" && k.Rule == o.Rule && k.Function == o.Func && k.Construct == o.Construct {
+				listed = true
+			}
+		}
+		if !listed {
+			n++
+		}
+	}
+	return n
+}
+
 // Finish applies the known-findings file, prints the report, writes
 // the evidence file and returns the process exit code.
 func (r *Report) Finish(writeEvidence bool, extraObs []*Ob, extraCov map[string]interface{}) int {
